@@ -402,6 +402,22 @@ def run(chk, repo):
                 for i_, e_ in enumerate(s_.iter.args[ai[0]].elts):
                     if isinstance(e_, ast.Constant):
                         pairs.setdefault(i_, []).append(e_.value)
+    # third form: `for k, kind in enumerate((names...)): if not success_flags[k]: failed[kind] += 1`
+    from sa import sem as _sem3
+    nd = _sem3.nf(repo, d)
+    for s_ in ast.walk(nd):
+        if isinstance(s_, ast.For) and isinstance(s_.iter, ast.Call) and call_name(s_.iter) == 'enumerate' and s_.iter.args \
+                and isinstance(s_.iter.args[0], (ast.Tuple, ast.List)) and isinstance(s_.target, ast.Tuple) and len(s_.target.elts) == 2 \
+                and len(s_.iter.args) == 1 and not s_.iter.keywords:
+            kv, cv = unparse(s_.target.elts[0]), unparse(s_.target.elts[1])
+            incs = [a for a in ast.walk(s_) if isinstance(a, ast.AugAssign) and re.search(r"n_transcripts_failed\[" + re.escape(cv) + r"\]", unparse(a.target))
+                    and unparse(a.value) == '1']
+            if len(incs) == 1:
+                fxs = _sem3.facts_in_iteration(nd, s_, lambda st: st is incs[0])
+                if fxs and all(_sem3.known(fx, f'not success_flags[{kv}]') is True for _st, fx in fxs):
+                    for i_, e_ in enumerate(s_.iter.args[0].elts):
+                        if isinstance(e_, ast.Constant):
+                            pairs.setdefault(i_, []).append(e_.value)
     for u, (slot, name) in UNIT_CALLERS.items():
         ok = pairs.get(slot) == [name]
         chk.ob('C07.d', f"flag[{slot}] ({u}) increments exactly n_transcripts_failed['{name}']", repo.loc(d, rl), ok,
